@@ -1191,7 +1191,7 @@ def _read_meta(ctx: ReaderContext) -> IMeta:
     input stream."""
     start = ctx.reader.advance()
     assert start == "^"
-    meta = _read_next_consuming_comment(ctx)
+    meta = _read_owed_form(ctx, "metadata marker")
 
     meta_map: lmap.PersistentMap[LispForm, LispForm] | None
     if isinstance(meta, sym.Symbol):
@@ -1207,7 +1207,7 @@ def _read_meta(ctx: ReaderContext) -> IMeta:
             f"Expected symbol, keyword, or map for metadata, not {type(meta)}"
         )
 
-    obj_with_meta = _read_next_consuming_comment(ctx)
+    obj_with_meta = _read_owed_form(ctx, "metadata")
     if isinstance(obj_with_meta, IWithMeta):
         new_meta = (
             obj_with_meta.meta.cons(meta_map)
@@ -1328,7 +1328,7 @@ def _read_quoted(ctx: ReaderContext) -> llist.PersistentList:
     """Read a quoted form from the input stream."""
     start = ctx.reader.advance()
     assert start == "'"
-    next_form = _read_next_consuming_comment(ctx)
+    next_form = _read_owed_form(ctx, "quote")
     return llist.l(_QUOTE, next_form)
 
 
@@ -1438,7 +1438,7 @@ def _read_syntax_quoted(ctx: ReaderContext) -> RawReaderForm:
     assert start == "`"
 
     with ctx.syntax_quoted():
-        return _process_syntax_quoted_form(ctx, _read_next_consuming_comment(ctx))
+        return _process_syntax_quoted_form(ctx, _read_owed_form(ctx, "syntax quote"))
 
 
 def _read_unquote(ctx: ReaderContext) -> LispForm:
@@ -1461,10 +1461,10 @@ def _read_unquote(ctx: ReaderContext) -> LispForm:
         next_char = ctx.reader.peek()
         if next_char == "@":
             ctx.reader.advance()
-            next_form = _read_next_consuming_comment(ctx)
+            next_form = _read_owed_form(ctx, "unquote-splicing")
             return llist.l(_UNQUOTE_SPLICING, next_form)
         else:
-            next_form = _read_next_consuming_comment(ctx)
+            next_form = _read_owed_form(ctx, "unquote")
             return llist.l(_UNQUOTE, next_form)
 
 
@@ -1473,7 +1473,7 @@ def _read_deref(ctx: ReaderContext) -> LispForm:
     """Read a derefed form from the input stream."""
     start = ctx.reader.advance()
     assert start == "@"
-    next_form = _read_next_consuming_comment(ctx)
+    next_form = _read_owed_form(ctx, "deref")
     return llist.l(_DEREF, next_form)
 
 
@@ -1504,6 +1504,8 @@ def _read_character(ctx: ReaderContext) -> str:
     s: list[str] = []
     reader = ctx.reader
     char = reader.peek()
+    if char == "":
+        raise ctx.eof_error("Unexpected EOF in character literal")
     is_first_char = True
     while True:
         if char == "" or (not is_first_char and not char.isalnum()):
@@ -1752,6 +1754,8 @@ def _read_var_macro(ctx: ReaderContext) -> llist.PersistentList:
     assert ctx.reader.peek() == "'"
     ctx.reader.advance()
     char_next = ctx.reader.peek()
+    if char_next == "":
+        raise ctx.eof_error("Unexpected EOF after var quote")
     if char_next == "~":
         s = _read_unquote(ctx)
     else:
@@ -1773,6 +1777,8 @@ def _read_reader_conditional_macro(ctx: ReaderContext) -> LispReaderForm:
     conditionals."""
     try:
         return _read_reader_conditional(ctx)
+    except UnexpectedEOFError as e:
+        raise ctx.eof_error(e.message).with_traceback(e.__traceback__) from None
     except SyntaxError as e:
         raise ctx.syntax_error(e.message).with_traceback(e.__traceback__) from None
 
@@ -1807,7 +1813,7 @@ def _read_reader_macro(ctx: ReaderContext) -> LispReaderForm:
             elif s.name == "f":
                 return _read_fstr(ctx)
 
-        v = _read_next_consuming_comment(ctx)
+        v = _read_owed_form(ctx, f"tag #{s}")
 
         if not ctx.should_process_tagged_literals:
             return tagged_literal(s, v)
@@ -1827,6 +1833,16 @@ def _read_next_consuming_comment(ctx: ReaderContext) -> RawReaderForm:
         if v is COMMENT or isinstance(v, Comment):
             continue
         return v
+
+
+def _read_owed_form(ctx: ReaderContext, owed_to: str) -> RawReaderForm:
+    """Read the next full form for a reader prefix (such as quote or metadata) which
+    cannot stand on its own. Reaching the end of the input instead is reported as an
+    unexpected EOF so callers like the REPL know more input is expected."""
+    v = _read_next_consuming_comment(ctx)
+    if v is ctx.eof:
+        raise ctx.eof_error(f"Unexpected EOF after {owed_to}")
+    return v
 
 
 def _read_next_consuming_whitespace(ctx: ReaderContext) -> LispReaderForm:
